@@ -13,6 +13,9 @@ configuration and the dictionary files as they are — and is empty for closed /
 * It is **proved for histories executed one handler at a time** under four side conditions
   (`OpOk`), each of which is necessary: a witness below shows the property failing without it.
 * It is **false of the code under interleaving** (`concurrent_stale`, `interleaving_breaks_latest`).
+* The theorems are stated twice: about `seqRun` / `handle` (a handler as one big step), and — last
+  section, `macro_*` — about `runMacro`, the scheduler the driver ops `srv` / `srvseq` run, on the
+  schedules in which each handler runs alone (`seqActs`); `macro_is_seqRun` is the bridge.
 -/
 namespace Harper.C09
 open Harper.Server
@@ -183,7 +186,8 @@ example :
 
 /-- **`seqRun` against the scheduler the driver runs.** The theorems above are about `seqRun` /
 `runSeq` (one handler alone); the driver op `srv` and every counter-schedule below run `runMacro`
-(`Sys`, `settle`). Both execute the same `prog` and `step`; there is no general lemma relating them.
+(`Sys`, `settle`). Both execute the same `prog` and `step`; the general lemma relating them is
+`macro_is_seqRun` below (section "the same theorems about the scheduler the driver runs").
 On the witness they agree: `niceHistory` fed to `runMacro` with every configuration request answered
 at once (the client's configuration: 0, then 3) leaves the server idle with exactly the same
 publication log (eight publications), dictionaries and configuration. -/
@@ -420,5 +424,296 @@ theorem sound_after_sequential (ops : List Op) (h : HistOk (Client.init, State.i
     ∀ v, WeakAt { (seqRun (Client.init, State.init) ops).1 with ck := k }
       (seqRun (Client.init, State.init) ops).2 v :=
   (seq_inv ops _ inv_init h).weak k
+
+/-! ## the same theorems about the scheduler the driver runs (`runMacro`)
+
+Everything above the counter-schedules is about `seqRun` / `handle` (a handler as ONE step); the
+driver ops `srv` / `srvseq` and every counter-schedule run `runMacro` (`Sys`, `settle`,
+`stepHandler`, `reply`). `Lemmas/Server.lean` (`solo_run`, `macro_handle`, `macro_is_seq_N`,
+`macro_is_seq`) proves that on the schedules in which each handler runs alone the two coincide:
+a message to an idle server followed by at least as many `reply 0 ck` as its handler sends
+configuration requests leaves the server idle in the state `handle ck` computes. The one side
+condition is the scheduler's fuel: `settle` takes at most `settleFuel` = 4096 segment steps per
+client action, so a program must be shorter than that — only `didChangeConfiguration` has programs
+of unbounded length (2 + 9 segments per key: at most 454 keys). -/
+
+/-- **One handler alone.** A message to an idle server (`Sys.init s`) and then `n` answers to the
+oldest configuration request, `n` at least the number of requests the handler sends when it runs
+alone (`pullsRun`; more answers than requests are ignored): the server is idle again and its state —
+documents, configuration, files, publication log — is `handle ck s m`. -/
+theorem macro_handler_alone (ck : CfgV) (s : State) (m : Msg) (n : Nat)
+    (hF : (prog m).1.length < settleFuel) (hn : pullsRun ck s (prog m).2 (prog m).1 ≤ n) :
+    let y := runMacro (Sys.init s) (.recv m :: List.replicate n (.reply 0 ck))
+    y.run = [] ∧ y.queue = [] ∧ y.pend = [] ∧ y.st = handle ck s m := by
+  have h : runMacro (Sys.init s) (.recv m :: List.replicate n (.reply 0 ck)) = idleSys (handle ck s m) 1 :=
+    macro_handle ck s 0 m n hF hn
+  rw [h]
+  exact ⟨rfl, rfl, rfl, rfl⟩
+
+/-- non-vacuity of `macro_handler_alone`, and the count is sharp: `didSave` of an open document whose
+file exists sends one request — one answer (or more) finishes it, none leaves it waiting -/
+example :
+    let s := (seqRun (Client.init, State.init) [.disk 0 (some tA), .msg (.didOpen 0 .plain tA)]).2
+    (prog (.didSave 0)).1.length < settleFuel ∧ pullsRun 0 s (prog (.didSave 0)).2 (prog (.didSave 0)).1 = 1 ∧
+    (runMacro (Sys.init s) [.recv (.didSave 0)]).pend = [0] ∧
+    (runMacro (Sys.init s) [.recv (.didSave 0), .reply 0 0]).st.log = (handle 0 s (.didSave 0)).log ∧
+    (runMacro (Sys.init s) [.recv (.didSave 0), .reply 0 0, .reply 0 0]).st.log = (handle 0 s (.didSave 0)).log ∧
+    (handle 0 s (.didSave 0)).log.length = 2 := by
+  decide
+
+/-- … and when the file cannot be read the handler sends NO request (`readDisk` skips the update): the
+answer `seqActs` schedules for it finds nobody waiting and is ignored -/
+example :
+    let s := (seqRun (Client.init, State.init) [.msg (.didOpen 0 .plain tA)]).2
+    pullsRun 0 s (prog (.didSave 0)).2 (prog (.didSave 0)).1 = 0 ∧ pullCount (prog (.didSave 0)).1 = 1 ∧
+    (runMacro (Sys.init s) [.recv (.didSave 0)]).pend = [] ∧
+    (runMacro (Sys.init s) [.recv (.didSave 0)]).st.log = (handle 0 s (.didSave 0)).log ∧
+    (runMacro (Sys.init s) [.recv (.didSave 0), .reply 0 0]).st.log = (handle 0 s (.didSave 0)).log := by
+  decide
+
+/-- **The fuel hypothesis is needed.** `settle` performs at most `settleFuel` = 4096 segment steps per
+client action. A configuration handler over 455 keys whose files are all missing sends no
+configuration request and has a program of 4097 segments: after the notification alone (as many
+answers as requests: none) the handler is still in flight — `macro_handler_alone` without its first
+hypothesis is false. One more client action (an answer nobody waits for) lets the scheduler finish it,
+which is why the schedule `seqActs` (one answer per key) still ends idle here. The real server has no
+such bound: the fuel is an artefact of the model's scheduler, reached by no K case (≤ 3 URIs). -/
+example :
+    let m : Msg := .didChangeConfiguration 1 (List.range 455)
+    pullsRun 1 State.init (prog m).2 (prog m).1 = 0 ∧ (prog m).1.length = settleFuel + 1 ∧
+    (runMacro (Sys.init State.init) [.recv m]).run.length = 1 ∧
+    (runMacro (Sys.init State.init) [.recv m, .reply 0 1]).run.length = 0 := by
+  decide +kernel
+
+/-- **The bridge.** The sequential schedule `seqActs c ops` of a history (every message followed at
+once by the answers to its handler's configuration requests, carrying the client's configuration)
+leaves `runMacro` idle in EXACTLY the state `seqRun` computes — hence with the same publication log,
+outbox, documents, configuration and dictionary files — and the client that schedule implies
+(`clientOfAct`) is `seqRun`'s client. Hypothesis: no `didChangeConfiguration` handler iterates over
+more than 454 keys (its program must be shorter than `settleFuel`). -/
+theorem macro_is_seqRun (ops : List Op) (c : Client) (s : State)
+    (hF : ∀ k order, Op.msg (.didChangeConfiguration k order) ∈ ops → order.length ≤ 454) :
+    let y := runMacro (Sys.init s) (seqActs c ops)
+    y.run = [] ∧ y.queue = [] ∧ y.pend = [] ∧ y.st = (seqRun (c, s) ops).2 ∧
+    (seqActs c ops).foldl clientOfAct c = (seqRun (c, s) ops).1 := by
+  obtain ⟨h1, h2⟩ := macro_is_seq ops c s 0 (fits_of_orders ops hF)
+  have h1' : runMacro (Sys.init s) (seqActs c ops) = idleSys (seqRun (c, s) ops).2 (0 + msgCount ops) := h1
+  rw [h1']
+  exact ⟨rfl, rfl, rfl, rfl, h2⟩
+
+/-- … in particular it publishes exactly the same things in the same order -/
+theorem macro_publishes_as_seq (ops : List Op) (c : Client) (s : State)
+    (hF : ∀ k order, Op.msg (.didChangeConfiguration k order) ∈ ops → order.length ≤ 454) (u : Url) :
+    pubsOf (runMacro (Sys.init s) (seqActs c ops)).st u = pubsOf (seqRun (c, s) ops).2 u := by
+  rw [(macro_is_seqRun ops c s hF).2.2.2.1]
+
+/-- The bridge for EVERY schedule in which each handler runs alone, not only the canonical one:
+`seqActsN` puts a free number of answers after each message, `Answered` asks that it be at least the
+number of requests the handler sends from the state the history has reached (and that no program
+exhausts the fuel). The `srv` lines of the harness's sequential histories are of this form with
+EXACTLY as many `R:` as the real server sent requests; `seqActs` is the instance with one answer per
+`Seg.pull` of the program (`seqActs_eq_N`). -/
+theorem macro_answered_is_seqRun (ops : List (Op × Nat)) (c : Client) (s : State)
+    (h : Answered (c, s) ops) :
+    let y := runMacro (Sys.init s) (seqActsN c ops)
+    y.run = [] ∧ y.queue = [] ∧ y.pend = [] ∧ y.st = (seqRun (c, s) (ops.map (·.1))).2 := by
+  have h1 : runMacro (Sys.init s) (seqActsN c ops)
+      = idleSys (seqRun (c, s) (ops.map (·.1))).2 (0 + msgCount (ops.map (·.1))) :=
+    (macro_is_seq_N ops c s 0 h).1
+  rw [h1]
+  exact ⟨rfl, rfl, rfl, rfl⟩
+
+/-- non-vacuity of `macro_answered_is_seqRun`: one answer for the `didOpen`, NONE for the `didSave`
+whose file is missing (it sends no request), three (two of them ignored) for the `didChange` -/
+example :
+    let ops : List (Op × Nat) :=
+      [(.msg (.didOpen 0 .plain tA), 1), (.msg (.didSave 0), 0), (.msg (.didChange 0 tB), 3)]
+    Answered (Client.init, State.init) ops ∧
+    seqActsN Client.init ops = [.recv (.didOpen 0 .plain tA), .reply 0 0, .recv (.didSave 0),
+      .recv (.didChange 0 tB), .reply 0 0, .reply 0 0, .reply 0 0] ∧
+    (runMacro (Sys.init State.init) (seqActsN Client.init ops)).st.outbox 0 = .diag (plainPub tB) :=
+  ⟨⟨⟨by decide, by decide⟩, ⟨by decide, by decide⟩, ⟨by decide, by decide⟩, trivial⟩, rfl, by decide⟩
+
+/-- the hypothesis of the bridge holds of the witness history -/
+theorem niceHistory_fits :
+    ∀ k order, Op.msg (.didChangeConfiguration k order) ∈ niceHistory → order.length ≤ 454 := by
+  intro k order h
+  simp [niceHistory] at h
+  simp [h.2]
+
+/-- the sequential schedule of `niceHistory`: one answer after each of the five single-update
+messages (carrying the client's configuration 0), one — carrying the NEW configuration 3 — for the
+one key of the configuration handler, none after `ignore`, `didClose`, `deleted` -/
+example : seqActs Client.init niceHistory =
+    [.disk 0 (some tA), .recv (.didOpen 0 .markdown tA), .reply 0 0, .recv (.didChange 0 tB), .reply 0 0,
+     .disk 0 (some tB), .recv (.didSave 0), .reply 0 0, .recv (.addUser 7 0), .reply 0 0,
+     .recv (.addFile 9 0), .reply 0 0, .recv (.ignore 0),
+     .recv (.didChangeConfiguration 3 [0]), .reply 0 3, .recv (.didClose 0), .recv (.deleted [0])] := rfl
+
+/-- non-vacuity of `macro_is_seqRun` / `macro_publishes_as_seq`: the theorem applied to the witness
+(eight publications for URL 0, the last one empty) -/
+example :
+    pubsOf (runMacro (Sys.init State.init) (seqActs Client.init niceHistory)).st 0
+      = pubsOf (seqRun (Client.init, State.init) niceHistory).2 0 ∧
+    (pubsOf (seqRun (Client.init, State.init) niceHistory).2 0).length = 8 :=
+  ⟨macro_publishes_as_seq _ _ _ niceHistory_fits 0, by decide⟩
+
+/-- **Sequential histories, under the scheduler.** `sequential_latest_partial` for `runMacro`: a
+history that satisfies `HistOk`, delivered to the (initially idle, empty) server as its sequential
+schedule, leaves the server idle and every URL's last publication is the truth for the client that
+schedule implies (`clientAfter`, the client `interleaving_breaks_latest` uses). `_partial` for the
+same reason: under other schedules it is false (`concurrent_stale`). -/
+theorem macro_sequential_latest_partial (ops : List Op)
+    (h : HistOk (Client.init, State.init) ops)
+    (hF : ∀ k order, Op.msg (.didChangeConfiguration k order) ∈ ops → order.length ≤ 454) :
+    let as := seqActs Client.init ops
+    let y := runMacro (Sys.init State.init) as
+    y.run = [] ∧ y.queue = [] ∧ y.pend = [] ∧ Latest (clientAfter as) y.st := by
+  obtain ⟨h1, h2, h3, h4, h5⟩ := macro_is_seqRun ops Client.init State.init hF
+  refine ⟨h1, h2, h3, ?_⟩
+  show Latest ((seqActs Client.init ops).foldl clientOfAct Client.init) _
+  rw [h4, h5]
+  exact sequential_latest_partial ops h
+
+/-- non-vacuity of `macro_sequential_latest_partial`: the witness history -/
+example :
+    Latest (clientAfter (seqActs Client.init niceHistory))
+      (runMacro (Sys.init State.init) (seqActs Client.init niceHistory)).st :=
+  (macro_sequential_latest_partial niceHistory niceHistory_ok niceHistory_fits).2.2.2
+
+/-- `sequential_latest_from` for `runMacro`: from ANY idle server (whatever handler ids it has used)
+whose state satisfies the invariant for the client `c`. -/
+theorem macro_sequential_latest_from (c : Client) (y0 : Sys) (ops : List Op)
+    (hidle : Idle y0) (hI : Inv c y0.st) (h : HistOk (c, y0.st) ops)
+    (hF : ∀ k order, Op.msg (.didChangeConfiguration k order) ∈ ops → order.length ≤ 454) :
+    let as := seqActs c ops
+    let y := runMacro y0 as
+    Idle y ∧ Latest (as.foldl clientOfAct c) y.st := by
+  obtain ⟨h1, h2⟩ := macro_is_seq ops c y0.st y0.nextId (fits_of_orders ops hF)
+  show Idle (runMacro y0 _) ∧ Latest _ (runMacro y0 _).st
+  rw [hidle.eq, h1, h2]
+  exact ⟨idleSys_idle _ _, sequential_latest_from c y0.st ops hI h⟩
+
+/-- non-vacuity of `macro_sequential_latest_from`: started mid-session — the server `runMacro` has
+reached after the first nine steps of the witness (idle, six handler ids used, document open and
+published) — with the rest of the witness -/
+example :
+    let as1 := seqActs Client.init (niceHistory.take 9)
+    let y0 := runMacro (Sys.init State.init) as1
+    let c := clientAfter as1
+    Idle y0 ∧ y0.nextId = 7 ∧
+    Latest ((seqActs c (niceHistory.drop 9)).foldl clientOfAct c) (runMacro y0 (seqActs c (niceHistory.drop 9))).st := by
+  have hok := (histOk_append _ _ _).mp (niceHistory_split ▸ niceHistory_ok)
+  have hF1 : ∀ k order, Op.msg (.didChangeConfiguration k order) ∈ niceHistory.take 9 → order.length ≤ 454 :=
+    fun k order hm => niceHistory_fits k order (List.mem_of_mem_take hm)
+  have hF2 : ∀ k order, Op.msg (.didChangeConfiguration k order) ∈ niceHistory.drop 9 → order.length ≤ 454 :=
+    fun k order hm => niceHistory_fits k order (List.mem_of_mem_drop hm)
+  obtain ⟨b1, b2⟩ := macro_is_seq (niceHistory.take 9) Client.init State.init 0 (fits_of_orders _ hF1)
+  have hidle : Idle (runMacro (Sys.init State.init) (seqActs Client.init (niceHistory.take 9))) := by
+    show Idle (runMacro (idleSys State.init 0) _); rw [b1]; exact idleSys_idle _ _
+  have hst : (runMacro (Sys.init State.init) (seqActs Client.init (niceHistory.take 9))).st
+      = (seqRun (Client.init, State.init) (niceHistory.take 9)).2 := by
+    show (runMacro (idleSys State.init 0) _).st = _; rw [b1]; rfl
+  have hc : clientAfter (seqActs Client.init (niceHistory.take 9))
+      = (seqRun (Client.init, State.init) (niceHistory.take 9)).1 := b2
+  refine ⟨hidle, by decide, ?_⟩
+  refine (macro_sequential_latest_from _ _ (niceHistory.drop 9) hidle ?_ ?_ hF2).2
+  · rw [hst, hc]; exact seq_inv _ _ inv_init hok.1
+  · rw [hst, hc]; exact hok.2
+
+/-- `latest_open` read off the scheduler: after the sequential schedule of an admissible history the
+last publication of a document the client has open (in a language a parser exists for) is non-empty and
+computed from the newest text, the client's configuration in all three facets, the dictionary files as
+they are and the client's ignore request. -/
+theorem macro_latest_open (ops : List Op) (h : HistOk (Client.init, State.init) ops)
+    (hF : ∀ k order, Op.msg (.didChangeConfiguration k order) ∈ ops → order.length ≤ 454)
+    (u : Url) (t : Text) (l : Lang)
+    (hb : (clientAfter (seqActs Client.init ops)).buf u = some (t, l)) (hl : l ≠ .unknown) :
+    let c := clientAfter (seqActs Client.init ops)
+    let s := (runMacro (Sys.init State.init) (seqActs Client.init ops)).st
+    ∃ p, s.outbox u = .diag p ∧ p.text = t ∧ p.sevCfg = c.ck ∧ p.lintCfg = c.ck ∧ p.parseCfg = c.ck ∧
+      p.dictUser = s.userDict ∧ p.dictFile = s.fileDict u ∧ p.ignored = c.ign u :=
+  latest_open _ _ (macro_sequential_latest_partial ops h hF).2.2.2 u t l hb hl
+
+/-- … and of a document the client has closed, deleted or never opened -/
+theorem macro_latest_closed (ops : List Op) (h : HistOk (Client.init, State.init) ops)
+    (hF : ∀ k order, Op.msg (.didChangeConfiguration k order) ∈ ops → order.length ≤ 454)
+    (u : Url) (hb : (clientAfter (seqActs Client.init ops)).buf u = none) :
+    let s := (runMacro (Sys.init State.init) (seqActs Client.init ops)).st
+    s.outbox u = .empty ∨ s.outbox u = .never :=
+  latest_closed _ _ (macro_sequential_latest_partial ops h hF).2.2.2 u hb
+
+/-- non-vacuity of `macro_latest_open`: the first nine steps of the witness under `runMacro` (the
+facets are obtained from the theorem, then evaluated) -/
+example : ∃ p, (runMacro (Sys.init State.init) (seqActs Client.init (niceHistory.take 9))).st.outbox 0 = .diag p ∧
+    p.text = tB ∧ p.sevCfg = 3 ∧ p.lintCfg = 3 ∧ p.parseCfg = 3 ∧ p.dictUser = [7] ∧ p.dictFile = [9] ∧
+    p.ignored = true := by
+  have hok : HistOk (Client.init, State.init) (niceHistory.take 9) :=
+    ((histOk_append _ _ _).mp (niceHistory_split ▸ niceHistory_ok)).1
+  have hF1 : ∀ k order, Op.msg (.didChangeConfiguration k order) ∈ niceHistory.take 9 → order.length ≤ 454 :=
+    fun k order hm => niceHistory_fits k order (List.mem_of_mem_take hm)
+  obtain ⟨p, h1, h2, h3, h4, h5, h6, h7, h8⟩ :=
+    macro_latest_open _ hok hF1 0 tB .markdown (by decide) (by decide)
+  refine ⟨p, h1, h2, ?_, ?_, ?_, ?_, ?_, ?_⟩
+  · rw [h3]; decide
+  · rw [h4]; decide
+  · rw [h5]; decide
+  · rw [h6]; decide
+  · rw [h7]; decide
+  · rw [h8]; decide
+
+/-- non-vacuity of `macro_latest_closed`: the witness after close + delete, under `runMacro` -/
+example :
+    (runMacro (Sys.init State.init) (seqActs Client.init niceHistory)).st.outbox 0 = .empty ∨
+    (runMacro (Sys.init State.init) (seqActs Client.init niceHistory)).st.outbox 0 = .never :=
+  macro_latest_closed _ niceHistory_ok niceHistory_fits 0 (by decide)
+
+/-- **`latest_after_notification` under the scheduler.** An idle server in ANY structurally sound state
+receives `didChangeConfiguration(k)` and the client answers the handler's configuration requests (at
+most one per key; `n ≥ order.length` answers, each carrying `k`) before doing anything else: the
+server is idle again and `Latest` holds for the client configuration `k`. "Before doing anything
+else" is the handler-runs-alone condition of `latest_after_notification`, now a statement about the
+schedule; `order.length ≤ 454` is the scheduler's fuel. -/
+theorem macro_latest_after_notification (c : Client) (y0 : Sys) (k : CfgV) (order : List Url) (n : Nat)
+    (hidle : Idle y0) (hW : ∀ v, WeakAt c y0.st v) (hd : ∀ u, DiskIsBuf c y0.st u)
+    (ho : ∀ u, u ∈ order ↔ (y0.st.docs u).isSome = true)
+    (hF : order.length ≤ 454) (hn : order.length ≤ n) :
+    let y := runMacro y0 (.recv (.didChangeConfiguration k order) :: List.replicate n (.reply 0 k))
+    Idle y ∧ Latest { c with ck := k } y.st := by
+  have hfit : (prog (.didChangeConfiguration k order)).1.length < settleFuel := by
+    rw [prog_length]; simp only [settleFuel]; omega
+  have hpull : pullsRun k y0.st (prog (.didChangeConfiguration k order)).2
+      (prog (.didChangeConfiguration k order)).1 ≤ n :=
+    Nat.le_trans (pullsRun_le _ _ _ _) (by rw [pullCount_prog]; exact hn)
+  have h := macro_handle k y0.st y0.nextId (.didChangeConfiguration k order) n hfit hpull
+  show Idle (runMacro y0 _) ∧ Latest _ (runMacro y0 _).st
+  rw [hidle.eq, h]
+  exact ⟨idleSys_idle _ _, latest_after_notification c y0.st k order hW hd ho⟩
+
+/-- non-vacuity of `macro_latest_after_notification`, the scenario of
+`linter_config_only_on_notification` under the scheduler: open, the client's configuration silently
+becomes 1 (its answers carry 1), edit, write the file — the idle server `y0` is structurally sound,
+stale in the linter facet — then the notification and one answer -/
+example :
+    let as : List Act := [.disk 0 (some tA), .recv (.didOpen 0 .markdown tA), .reply 0 0,
+      .recv (.didChange 0 tB), .reply 0 1, .disk 0 (some tB)]
+    let y0 := runMacro (Sys.init State.init) as
+    let c : Client := { clientAfter as with ck := 1 }
+    Idle y0 ∧ (∀ v, WeakAt c y0.st v) ∧ (∀ u, DiskIsBuf c y0.st u) ∧
+    (∀ u, u ∈ [0] ↔ (y0.st.docs u).isSome = true) ∧
+    y0.st.outbox 0 = .diag ⟨tB, .markdown, 1, 0, 1, [], [], none, false⟩ ∧
+    (runMacro y0 [.recv (.didChangeConfiguration 1 [0]), .reply 0 1]).st.outbox 0
+      = .diag ⟨tB, .markdown, 1, 1, 1, [], [], none, false⟩ := by
+  refine ⟨⟨by decide, by decide, by decide⟩, ?_, ?_, ?_, by decide, by decide⟩
+  all_goals
+    simp [runMacro, macroStep, micro, settle, settleFuel, startOrQueue, stepHandler, findHandler, setHandler,
+      dropHandler, runnable, reply, removeNth, maxConcurrency, Sys.init,
+      clientAfter, clientOfAct, clientStep, prog, update, publishSegs, step,
+      replaceDoc, lintSendDoc, publish, setF, Client.init, State.init, tA, tB, dictDiffers, WeakAt,
+      DiskIsBuf, pubOf]
+  · intro v; by_cases h : v = 0 <;> simp [h]
+  · intro u t l; by_cases h : u = 0 <;> simp [h]
+    intro h1 _; exact h1.symm ▸ rfl
+  · intro u; by_cases h : u = 0 <;> simp [h]
 
 end Harper.C09
